@@ -221,6 +221,28 @@ func (in *Interp) computeAxioms() []*Term {
 		for _, name := range sortedKeys(byName) {
 			apps := byName[name]
 			sort.Slice(apps, func(i, j int) bool { return apps[i].id < apps[j].id })
+			if l, _ := in.hooks["conc:"+name].(*[]concPair); l != nil {
+				for _, app := range apps {
+					if len(app.args) != 1 || app.args[0].sort.K != SStr {
+						continue
+					}
+					for _, p := range *l {
+						var out *Term
+						switch {
+						case app.sort.K == SStr:
+							out = in.ts.Str(p.out)
+						case app.sort.K == SBV && app.sort.W == 8*len(p.out) && len(p.out) > 0:
+							out = in.ts.BV(8, uint64(p.out[0]))
+							for k := 1; k < len(p.out); k++ {
+								out = in.ts.Concat(out, in.ts.BV(8, uint64(p.out[k])))
+							}
+						default:
+							continue
+						}
+						ax = append(ax, in.ts.Implies(in.ts.Eq(app, out), in.ts.Eq(app.args[0], in.ts.Str(p.in))))
+					}
+				}
+			}
 			for i := 0; i < len(apps); i++ {
 				for j := i + 1; j < len(apps); j++ {
 					argsEq := in.ts.True()
@@ -245,25 +267,62 @@ func (in *Interp) computeAxioms() []*Term {
 		for i := 0; i < len(apps); i++ {
 			for j := i + 1; j < len(apps); j++ {
 				a, b := apps[i], apps[j]
-				same := in.ts.And(in.ts.And(in.ts.Eq(a.args[0], b.args[0]), in.ts.Eq(a.args[1], b.args[1])), in.ts.Eq(a.args[3], b.args[3]))
-				ax = append(ax, in.ts.Implies(in.ts.And(in.ts.And(a, b), same), in.ts.Eq(a.args[2], b.args[2])))
+				// only for syntactically identical (key share, value): the case that matters (one share offered for two
+				// messages) and cheap; pairs the solver could merely MAKE equal are left unconstrained (weaker assumption)
+				if a.args[0] != b.args[0] || a.args[1] != b.args[1] || a.args[3] != b.args[3] {
+					continue
+				}
+				ax = append(ax, in.ts.Implies(in.ts.And(a, b), in.ts.Eq(a.args[2], b.args[2])))
 			}
 		}
 	}
 	// JSON blobs: opaque string symbols are equal iff the trees are structurally equal. Only on request
 	// (param blob_axioms): without these axioms the symbols of semantically equal but syntactically different trees are
 	// unrelated, which over-approximates (sound for proving; spurious counterexamples are filtered by native replay).
-	for i := 0; in.params["blob_axioms"] != "" && i < len(in.blobs); i++ {
-		for j := i + 1; j < len(in.blobs); j++ {
-			a, b := in.blobs[i], in.blobs[j]
-			if a.Str == b.Str {
+	if in.params["blob_axioms"] != "" {
+		// one representative per distinct symbol
+		var reps []*Blob
+		seenStr := map[int]bool{}
+		for _, b := range in.blobs {
+			if b.Str == nil || seenStr[b.Str.id] {
 				continue
 			}
-			je := in.jsonEq(a.Node, b.Node)
-			if je.IsConst() && !je.BoolVal() && !in.blobDistinct {
-				continue // structurally different trees: distinctness only asserted on request (vf.Param blob_distinct)
+			seenStr[b.Str.id] = true
+			reps = append(reps, b)
+		}
+		n := len(reps)
+		eq := make([][]*Term, n)
+		rigid := make([]bool, n)
+		for i := range eq {
+			eq[i] = make([]*Term, n)
+			rigid[i] = in.blobDistinct
+		}
+		for i := 0; i < n; i++ {
+			for j := i + 1; j < n; j++ {
+				je := in.jsonEq(reps[i].Node, reps[j].Node)
+				eq[i][j] = je
+				if !(je.IsConst() && !je.BoolVal()) {
+					rigid[i], rigid[j] = false, false
+				}
 			}
-			ax = append(ax, in.ts.Eq(in.ts.Eq(a.Str, b.Str), je))
+		}
+		// a tree that differs structurally from every other tree gets an integer tag: distinctness by congruence instead
+		// of a quadratic number of sequence disequalities (which z3's sequence solver does not digest)
+		for i := 0; i < n; i++ {
+			if rigid[i] {
+				ax = append(ax, in.ts.Eq(in.ts.App("blob.tag", IntSort, reps[i].Str), in.ts.Int(int64(i+1))))
+			}
+		}
+		for i := 0; i < n; i++ {
+			for j := i + 1; j < n; j++ {
+				je := eq[i][j]
+				if je.IsConst() && !je.BoolVal() {
+					if !in.blobDistinct || (rigid[i] && rigid[j]) {
+						continue // distinctness only on request (vf.Param blob_distinct); tagged pairs need nothing more
+					}
+				}
+				ax = append(ax, in.ts.Eq(in.ts.Eq(reps[i].Str, reps[j].Str), je))
+			}
 		}
 	}
 	return ax
